@@ -65,6 +65,7 @@ pub fn sim_spec() -> impl Strategy<Value = SimSpec> {
 			kill_fail,
 			signal_fail,
 			wait_fail: vec![],
+			kill_lag_ms: 0,
 		})
 }
 
